@@ -171,6 +171,16 @@ CHECKS['C27'] = dict(
     note='Not decided: decode(encode(m)) = m (value-level); tokio/bytes internals are trusted.',
     design='§4 C27')
 
+CHECKS['C25'] = dict(
+    technique='deny rule on lossy text operations reachable from the cache-key function; visitor-completeness analysis (T9) of the invalidation table extractor against the Expression/FromClause/SelectStmt ADTs; reachability of both caches from invalidate_table',
+    text='Decides that the text→key function applies no case folding / whitespace collapsing to the whole SQL text, that the table extractor '
+         'used for invalidation visits every child position that can hold a table reference (children are read from the ADT definitions, so '
+         'new variants are covered), and that invalidate_table reaches both caches and folds case. Necessary conditions for never serving a '
+         'foreign or stale entry, for all query texts and write interleavings.',
+    note='Not decided: that callers invalidate on every write (the cache is not wired into the executors in this tree), views (need the '
+         'catalog), 64-bit hash collisions.',
+    design='§4 C25')
+
 NOT_APPLICABLE = {
     'C01': 'Equality of result multisets with a reference engine is a value-level semantic equivalence over all queries and data; no structural necessary condition beyond those claimed under C06/C21/C24 exists and a static rule cannot stand in for an oracle.',
     'C03': 'Columnar-vs-row agreement is determined by computed values (empty input, NULL handling, sums); a rejected shape falls back safely, so no table-agreement obligation exists whose breach necessarily changes results.',
